@@ -36,6 +36,7 @@ type realDB struct {
 	counts []*obikmer.Table4mer
 	taxa   obitax.TaxonSet
 	taxo   *obitax.Taxonomy
+	memo   map[int]map[int]string // big databases only, see index
 }
 
 func buildTaxonomy(c *dbCase) (*obitax.Taxonomy, error) {
@@ -113,16 +114,29 @@ func describe(c *dbCase, m *model) string {
 	var b strings.Builder
 	fmt.Fprintf(&b, "query (len %d) %s\n", len(c.Query), c.Query)
 	si := m.scan()
+	shown, near := 0, 0
+	head := 70
+	if len(c.Refs) > 200 {
+		head = 7
+	}
 	for i, r := range c.Refs {
+		// big databases: the first references, then only those near the minimum
+		if i > head {
+			if m.q[i].d > m.dmin+2 || near >= 60 {
+				continue
+			}
+			near++
+		}
 		mark := " "
 		if m.q[i].d == m.dmin {
 			mark = "*"
 		}
 		fmt.Fprintf(&b, " %s %-4s len %3d taxid %-6d shared4mers %3d  distance %3d (lcs %d, alignment %d)  %s\n",
 			mark, refID(i), len(r), c.Tree.Taxid[c.Node[i]], si.cw[i], m.q[i].d, m.q[i].lcs, m.q[i].al, r)
-		if i >= 70 {
-			break
-		}
+		shown++
+	}
+	if shown < len(c.Refs) {
+		fmt.Fprintf(&b, " (%d of %d references shown: the first %d and those within 2 of the minimal distance)\n", shown, len(c.Refs), head+1)
 	}
 	return b.String()
 }
@@ -268,9 +282,18 @@ func describeRef(c *dbCase, m *model, r int) string {
 	var b strings.Builder
 	rk := kmers4(c.Refs[r])
 	fmt.Fprintf(&b, "indexed reference %s (len %d, taxid %d) %s\n", refID(r), len(c.Refs[r]), c.Tree.Taxid[c.Node[r]], c.Refs[r])
+	shown := 0
 	for j, s := range c.Refs {
+		// big databases: only the closest references of each taxonomic level are of interest
+		if len(c.Refs) > 200 && (m.refDist(r, j) > 12 || shown >= 80) {
+			continue
+		}
+		shown++
 		fmt.Fprintf(&b, "   %-4s len %3d taxid %-6d lca-with-indexed taxid %-6d shared4mers %3d distance %3d  %s\n",
 			refID(j), len(s), c.Tree.Taxid[c.Node[j]], c.Tree.Taxid[c.Tree.LCA(c.Node[r], c.Node[j])], shared4(rk, kmers4(s)), m.refDist(r, j), s)
+	}
+	if shown < len(c.Refs) {
+		fmt.Fprintf(&b, "   (%d of %d references shown: those within 12 of the indexed reference)\n", shown, len(c.Refs))
 	}
 	fmt.Fprintf(&b, "taxonomy parents (by node): %v taxids: %v\n", c.Tree.Parent, c.Tree.Taxid)
 	return b.String()
@@ -320,9 +343,34 @@ func judgeIndex(c *dbCase, m *model, r int, idx map[int]string) error {
 	return nil
 }
 
+// bigDBSize is the size from which one realDB keeps the maps IndexSequence
+// returned (a copy is handed out): on a database of 10^5 unrelated references one
+// call aligns nearly every reference, and identifyM asks for the same map up to
+// three times.  Small databases are indexed afresh at every request.
+const bigDBSize = 20000
+
 func (db *realDB) index(r int) (map[int]string, fatal.Outcome) {
+	if len(db.refs) >= bigDBSize {
+		if idx, ok := db.memo[r]; ok {
+			cp := make(map[int]string, len(idx))
+			for k, v := range idx {
+				cp[k] = v
+			}
+			return cp, fatal.Outcome{Completed: true}
+		}
+	}
 	var idx map[int]string
 	out := fatal.Run(func() { idx = obirefidx.IndexSequence(r, db.refs, &db.counts, &db.taxa, db.taxo) })
+	if out.Completed && len(db.refs) >= bigDBSize {
+		if db.memo == nil {
+			db.memo = map[int]map[int]string{}
+		}
+		cp := make(map[int]string, len(idx))
+		for k, v := range idx {
+			cp[k] = v
+		}
+		db.memo[r] = cp
+	}
 	return idx, out
 }
 
@@ -332,12 +380,18 @@ func indexM(cp *dbCase, m *model) error {
 	if err != nil {
 		return err
 	}
+	for _, r := range c.Stale {
+		db.refs[r].SetOBITagRefIndex(map[int]string{0: fmt.Sprintf("%d@%s@%s", c.Tree.Taxid[0], c.Tree.Name[0], c.Tree.Rank[0])})
+	}
 	for _, r := range c.Targets {
 		idx, out := db.index(r)
 		if !out.Completed {
 			return fmt.Errorf("IndexSequence(%s of %d references) did not return: %v\n%s\n%s", refID(r), len(c.Refs), out, out.Stack, describeRef(&c, m, r))
 		}
 		if err := judgeIndex(&c, m, r, idx); err != nil {
+			if len(c.Stale) > 0 {
+				return fmt.Errorf("(references %s carried the obitag_ref_index {0: root} of another database when IndexSequence was called) %w", idsOf(c.Stale), err)
+			}
 			return err
 		}
 	}
